@@ -312,6 +312,7 @@ class Worker(metaclass=SupportClassPropertiesMeta):
             > nor that they won't. This might change in the future, so that the behaviour is consistent at least in the case of ``user_state``,
             > if proven beneficial.
         '''
+        self._get_result() # makes sure the value reported by a child that has already finished is picked up (process workers fetch it together with the result)
         return self._user_state
 
     @user_state.setter
